@@ -5,6 +5,7 @@ From DBG Require Import Interop.Val Spec.Dna Packed.KmerModel Algo.KmerHist Inte
 From DBG Require Interop.DispatchBBHash Interop.DispatchGraph.
 From DBG Require Interop.DispatchAscii.
 From DBG Require Interop.DispatchScan.
+From DBG Require Interop.DispatchFilter.
 Import ListNotations.
 Open Scope N_scope.
 
@@ -131,7 +132,9 @@ Definition dispatchers : list (string -> val -> option val) :=
     DispatchGraph.d_graph;
     DispatchAscii.d_ascii;
     DispatchBBHash.d_bbhash;
-    (fun op v => if DispatchScan.is_scan_op op then DispatchScan.d_scan op v else None)
+    (fun op v => if DispatchScan.is_scan_op op then DispatchScan.d_scan op v else None);
+    (fun op v => if existsb (String.eqb op) ["s.filter"; "s.filter_get"; "f.filter"; "chk.filter_rc"]%string
+                 then DispatchFilter.d_filter op v else None)
   ].
 Fixpoint first_some (ds : list (string -> val -> option val)) (op : string) (v : val) : option val :=
   match ds with
